@@ -249,7 +249,7 @@ def gen_plan(seed, idx, mode):
         elif o in ("set_s", "set_a", "bad_set"):
             op["idx"] = r.range(-maxn - 1, maxn) if r.chance(0.5) else gen_slice(r, maxn)
             if o == "bad_set":
-                op["idx"] = r.choice([2 ** 31, -2 ** 31, 2 ** 32, 2 ** 32 + 1, 2 ** 63 - 1, -2 ** 63, maxn + 3])
+                op["idx"] = r.choice([2 ** 31, -2 ** 31, 2 ** 32, 2 ** 32 + 1, 2 ** 63 - 1, -2 ** 63, maxn + 3, 2 ** 64, -2 ** 64, 2 ** 63])
             op["dlen"] = r.weighted([(9, 0), (1, r.choice([-1, 1]))]) if mode == "faults" else 0
             op["src"] = r.weighted([(6, "new"), (3, "slot")])
             op["h2"] = r.below(1 << 16)
@@ -529,11 +529,15 @@ class Sim:
         nh = Handle(a, "arr", h.tname, self.new_store(h.tname, want), range(len(want)), True)
         self.add(nh)
 
-    def mask_bits(self, op, n):
+    def mask_bits(self, op, n, h=None):
         bits = list(op["m"])
-        while len(bits) < n + 3:
+        while len(bits) < n + 5:
             bits += bits or [1]
         ln = max(0, n + op.get("dlen", 0))
+        if h is not None and h.masked and ln != n and ln == h.ulen:
+            # a mask as long as the array a masked reference was taken from is accepted (documented
+            # non-strict match); that sub-case is neither demanded nor forbidden here: avoid it
+            ln += 1
         return bits[:ln]
 
     def op_mask(self, op):
@@ -542,7 +546,7 @@ class Sim:
             return False
         self.ctx("getitem-mask", h)
         n = len(h.idx)
-        bits = self.mask_bits(op, n)
+        bits = self.mask_bits(op, n, h)
         got = self.call(h.real.__getitem__, self.make_mask(bits))
         if len(bits) != n:
             self.inc("fault.bad_length")
@@ -628,7 +632,7 @@ class Sim:
             return False
         self.ctx("setitem-mask-scalar", h)
         n = len(h.idx)
-        bits = self.mask_bits(op, n)
+        bits = self.mask_bits(op, n, h)
         val = fresh_value(h.tname, op["v"])
         got = self.call(h.real.__setitem__, self.make_mask(bits), to_real(h.tname, val))
         if len(bits) != n:
@@ -648,7 +652,7 @@ class Sim:
             return False
         self.ctx("setitem-mask-array", h)
         n = len(h.idx)
-        bits = self.mask_bits(op, n)
+        bits = self.mask_bits(op, n, h)
         cnt = sum(1 for b in bits[:n] if b)
         form = op["form"]
         ln = n if form == "full" else cnt if form == "packed" else n + 1 + (1 if n + 1 == cnt else 0)
@@ -679,7 +683,7 @@ class Sim:
             return False
         self.ctx("ifelse-scalar", h)
         n = len(h.idx)
-        bits = self.mask_bits(op, n)
+        bits = self.mask_bits(op, n, h)
         val = fresh_value(h.tname, op["v"])
         got = self.call(h.real.ifelse, self.make_mask(bits), to_real(h.tname, val))
         bad = len(bits) != n
@@ -698,7 +702,7 @@ class Sim:
             return False
         self.ctx("ifelse-array", h)
         n = len(h.idx)
-        bits = self.mask_bits(op, n)
+        bits = self.mask_bits(op, n, h)
         ln = n + op.get("dlen2", 0)
         ovals = [fresh_value(h.tname, op["v"] * 16 + 7 + i) for i in range(ln)]
         got = self.call(h.real.ifelse, self.make_mask(bits), self.make_array(h.tname, ovals))
@@ -736,6 +740,8 @@ class Sim:
             per = [v] * n
         elif rhs in ("array", "badlen"):
             ln = n if rhs == "array" else n + 1
+            if ln != n and h.masked and ln == h.ulen:
+                ln += 1     # the unmasked length is a legal operand length for a masked left-hand side
             vals = [small(op["v"] * 16 + i) for i in range(ln)]
             got = self.call(fn, self.make_array(h.tname, vals))
             if ln != n:
@@ -760,7 +766,7 @@ class Sim:
             self.inc("probe.masked_rhs")
         else:
             # left-hand side masked, right-hand side as long as the *unmasked* array: indexed through the mask
-            if not h.masked or h.ulen is None or h.comp is not None:
+            if not h.masked or h.ulen is None:
                 return False
             vals = [small(op["v"] * 16 + i) for i in range(h.ulen)]
             got = self.call(fn, self.make_array(h.tname, vals))
@@ -795,6 +801,7 @@ class Sim:
         got = self.call(getattr, h.real, name)
         self.expect(got, False, "a.%s" % name)
         nh = Handle(got[1], "arr", vt, h.store, h.idx, h.writable, h.masked, ci)
+        nh.ulen, nh.upos = h.ulen, h.upos
         if h.masked:
             self.inc("probe.component_view_of_masked")
         self.add(nh)
@@ -934,9 +941,9 @@ class Sim:
                 return False
             obj = ((ct[fmt] * (width + 1)) * n)()
         elif how == "strided":
-            base = pyarray.array(fmt, [0] * (2 * n)) if ndim == 1 else None
+            base = pyarray.array(fmt, [0] * (2 * n)) if (ndim == 1 and n >= 2) else None
             if base is None:
-                return False
+                return False     # (a one-element strided view is contiguous)
             obj = memoryview(base)[::2]
         elif how == "bytes":
             obj = bytes(isz * width * n)
